@@ -435,6 +435,7 @@ def check_history(W, mcfg, blob, recs, exp, want=('C02', 'C08'), normalization='
                 continue
             # ---- (b) subsets
             n = len(genes)
+            factor = common.factor_for(mcfg, plevel)
             want_size = model.bootstrap_size(factor, n)
             subsets = tally['subsets']
             if len(subsets) != n_iter:
